@@ -2,7 +2,7 @@ use chess_bitboard::{BitBoard, Color, Piece, Pos, Rank, Side};
 
 use crate::Board;
 
-use super::{LegalMovesAt, MoveList};
+use super::{LegalMovesAt, MoveList, PROMOTION_PIECES};
 
 fn check_mask<const IS_IN_CHECK: bool>(board: &Board, king_sq: Pos) -> BitBoard {
     assert_eq!(board.checkers.count(), IS_IN_CHECK as u8);
@@ -41,7 +41,7 @@ pub(super) trait PieceType {
                 movelist.push_unchecked(LegalMovesAt {
                     src,
                     moves,
-                    promotion: false,
+                    promotion: None,
                 })
             }
         }
@@ -62,9 +62,33 @@ pub(super) trait PieceType {
                 movelist.push_unchecked(LegalMovesAt {
                     src,
                     moves,
-                    promotion: false,
+                    promotion: None,
                 })
             }
+        }
+    }
+}
+
+/// a pawn about to promote gets one entry per promotion piece, so that every
+/// (source, destination, piece) triple is a move of its own in the list
+fn push_pawn_moves(movelist: &mut MoveList, src: Pos, moves: BitBoard, promotes: bool) {
+    if promotes {
+        for &piece in &PROMOTION_PIECES {
+            unsafe {
+                movelist.push_unchecked(LegalMovesAt {
+                    src,
+                    moves,
+                    promotion: Some(piece),
+                });
+            }
+        }
+    } else {
+        unsafe {
+            movelist.push_unchecked(LegalMovesAt {
+                src,
+                moves,
+                promotion: None,
+            });
         }
     }
 }
@@ -105,13 +129,7 @@ impl PieceType for Pawn {
                 continue;
             }
 
-            unsafe {
-                movelist.push_unchecked(LegalMovesAt {
-                    src,
-                    moves,
-                    promotion: src.rank() == seventh_rank,
-                });
-            }
+            push_pawn_moves(movelist, src, moves, src.rank() == seventh_rank);
         }
 
         if !IS_IN_CHECK {
@@ -123,13 +141,7 @@ impl PieceType for Pawn {
                     continue;
                 }
 
-                unsafe {
-                    movelist.push_unchecked(LegalMovesAt {
-                        src,
-                        moves,
-                        promotion: src.rank() == seventh_rank,
-                    });
-                }
+                push_pawn_moves(movelist, src, moves, src.rank() == seventh_rank);
             }
         }
 
@@ -164,7 +176,7 @@ impl PieceType for Pawn {
                         movelist.push_unchecked(LegalMovesAt {
                             src,
                             moves: dest,
-                            promotion: false,
+                            promotion: None,
                         });
                     }
                 }
@@ -285,7 +297,7 @@ impl King {
             movelist.push_unchecked(LegalMovesAt {
                 src: king_sq,
                 moves,
-                promotion: false,
+                promotion: None,
             })
         }
     }
